@@ -78,7 +78,7 @@ PENDING = {}
 NOTE_APPEND = {
  "C04": " Scheduler pass: programs L (discovery from a digest against the first relayed delta), G, H; every schedule up to 2 (3) preemptions, routing table mirrors the gossip view at quiescence.",
  "C05": " Bulk cases: 10-400 endpoints on one node told to peers in complete exchanges, before and after half of the upstreams disconnect.",
- "C08": " Access-log configurations (log enabled with allow / block lists) x response shapes incl. trailers; every sequence of three placements of an endpoint's upstreams over two nodes. Findings D10 and D14 (empty 404 replaced by gin) repaired by fix: commits.",
+ "C08": " Access-log configurations (log enabled with allow / block lists) x response shapes incl. trailers; every sequence of three placements of an endpoint's upstreams over two nodes. Findings D10 and D14 (empty 404 replaced by gin) repaired by fix: commits. Default-configuration case: finding F5 (write timeout shorter than the proxy timeout) reproduced as KNOWN-FINDING.",
  "C11": " Own-identity exploration: what peers remember of a previous incarnation of the local id never changes the restarted node.",
  "C13": " Two-message sequences (every ordered pair of corpus messages with a node id replaced by invalid UTF-8). Nested-stream cases, one worker process each: finding F4 (unbounded recursion when skipping an unknown value) reproduced as KNOWN-FINDING.",
  "C16": " Client listener stopped in the middle of a slow reconnect handshake (finding D11 repaired by a fix: commit); tenant upstreams in the mixed-token-lifetime cases.",
@@ -126,7 +126,7 @@ def main():
         ],
         "checks": checks,
         "not_applicable": na,
-        "notes": "fix: commits in /repo repair findings D1 (C05), D2 (C17), D3 (C08), D4 (C18), D6 (C13), D7 (C06, C01), D8 (C08), D9 (C18), D10 (C08), D11 (C16), D12 (C19), D13 (C19), D14 (C08); known_findings.json lists recorded findings F1-F4 and the fixed entries.",
+        "notes": "fix: commits in /repo repair findings D1 (C05), D2 (C17), D3 (C08), D4 (C18), D6 (C13), D7 (C06, C01), D8 (C08), D9 (C18), D10 (C08), D11 (C16), D12 (C19), D13 (C19), D14 (C08); known_findings.json lists recorded findings F1-F5 and the fixed entries.",
     }
     json.dump(m, open(os.path.join(ROOT, "MANIFEST.json"), "w"), indent=1)
     print("wrote MANIFEST.json with %d checks, %d not claimed" % (len(checks), len(na)))
